@@ -158,7 +158,7 @@ namespace hgvc
             const bool  m  = v.modified();
             const bool  ok = v.valid();
             std::string o  = std::string("{\"k\":\"") + kind_name(s->kind) + "\",\"m\":" + (m ? "1" : "0") + ",\"ok\":" + (ok ? "1" : "0") +
-                            ",\"lmt\":" + std::to_string(to_k(v.last_modified_time()));
+                            ",\"lmt\":" + std::to_string(to_k(v.last_modified_time())) + ",\"av\":" + (v.all_valid() ? "1" : "0");
             switch (s->kind)
             {
                 case TSTypeKind::TS:
